@@ -504,6 +504,12 @@ fn short(ans: &str) -> String {
 }
 
 fn scan(base: &[u8], subs: &[u8], ins: &[u8], xors: &[u8]) {
+    scan_in(base, subs, ins, xors, &[(0, usize::MAX)])
+}
+
+/// the same faults, restricted to the offsets inside one of the given half-open windows
+fn scan_in(base: &[u8], subs: &[u8], ins: &[u8], xors: &[u8], windows: &[(usize, usize)]) {
+    let inside = |p: usize| windows.iter().any(|&(a, b)| a <= p && p < b);
     let (mut n, mut rej, mut acc, mut pan) = (0u64, 0u64, 0u64, 0u64);
     let mut run = |edit: String, m: &[u8]| {
         n += 1;
@@ -520,6 +526,9 @@ fn scan(base: &[u8], subs: &[u8], ins: &[u8], xors: &[u8]) {
     };
     let len = base.len();
     for p in 0..len {
+        if !inside(p) {
+            continue;
+        }
         for &v in subs {
             if v != base[p] {
                 let mut m = base.to_vec();
@@ -541,6 +550,9 @@ fn scan(base: &[u8], subs: &[u8], ins: &[u8], xors: &[u8]) {
         run(format!("t{p}"), &base[..p]);
     }
     for p in 0..=len {
+        if !inside(p) {
+            continue;
+        }
         for &v in ins {
             let mut m = base.to_vec();
             m.insert(p, v);
@@ -585,6 +597,18 @@ pub fn run() {
             ("SCAN", 4) => match (unhex(p[1]), unhex(p[2]), unhex(p[3])) {
                 (Ok(s), Ok(i), Ok(x)) => {
                     scan(&base, &s, &i, &x);
+                    out::flush();
+                    continue;
+                }
+                _ => Err("bad hex".into()),
+            },
+            ("SCANW", 5) => match (unhex(p[1]), unhex(p[2]), unhex(p[3])) {
+                (Ok(s), Ok(i), Ok(x)) => {
+                    let w: Vec<(usize, usize)> = p[4]
+                        .split(',')
+                        .filter_map(|r| r.split_once('-').and_then(|(a, b)| Some((a.parse().ok()?, b.parse().ok()?))))
+                        .collect();
+                    scan_in(&base, &s, &i, &x, &w);
                     out::flush();
                     continue;
                 }
